@@ -3,7 +3,7 @@ from harness import *
 logging.basicConfig(level=logging.ERROR)
 
 async def main():
-    d = tempfile.mkdtemp(prefix='c06', dir='/tmp/exp')
+    d = tempfile.mkdtemp(prefix='c06')
     chain = Chain(1)
     for i in range(6): chain.add_block(2)
     env = make_env(d)
